@@ -239,12 +239,30 @@ func (w *World) NewOutput(amount uint64, id, secret string) *HOutput {
 // NewLockedOutputs: outputs whose secrets are NUT-10 spending conditions (P2PK, or HTLC when htlc)
 // with SIG_INPUTS semantics, together with the witness that will unlock each resulting proof.
 func (w *World) NewLockedOutputs(amounts []uint64, id string, htlc bool) []*HOutput {
+	return w.newLockedOutputs(amounts, id, htlc, "")
+}
+
+// NewSigAllOutputs: P2PK secrets with SIG_ALL (spendable only by a swap whose outputs are signed).
+func (w *World) NewSigAllOutputs(amounts []uint64, id string) []*HOutput {
+	return w.newLockedOutputs(amounts, id, false, "SIG_ALL")
+}
+
+// SignOutputsSigAll signs swap outputs with the key of NewSigAllOutputs.
+func (w *World) SignOutputsSigAll(outs []*HOutput) {
+	for _, o := range outs {
+		bb, _ := hex.DecodeString(o.B_)
+		wj, _ := json.Marshal(map[string]any{"signatures": []string{SignMsg(w.LockRing.Priv[0], bb, 0)}})
+		o.Witness = string(wj)
+	}
+}
+
+func (w *World) newLockedOutputs(amounts []uint64, id string, htlc bool, sigflag string) []*HOutput {
 	if w.LockRing == nil {
 		w.LockRing = NewKeyRing(2)
 	}
 	outs := make([]*HOutput, len(amounts))
 	for i, a := range amounts {
-		c := &LockCfg{NSigs: -1, LockKey: 0, Data: w.LockRing.PubHex(0)}
+		c := &LockCfg{NSigs: -1, LockKey: 0, Data: w.LockRing.PubHex(0), SigFlag: sigflag}
 		pre := ""
 		if htlc {
 			pre = randHex(32)
